@@ -257,3 +257,93 @@ Theorem raw_field_refuted : exists s,
   skeleton (render [Trusted [60;98;62]; Raw s; Trusted [60;47;98;62]]) <>
   skeleton (render (strip [Trusted [60;98;62]; Raw s; Trusted [60;47;98;62]])).
 Proof. exists [60;105;62]. vm_compute. discriminate. Qed.
+
+(* ---- hand-built attributes with a quoting mode *)
+Lemma until_squote_app a b : has (fun c => c =? 39) a = false -> until_squote (a ++ 39 :: b) = a.
+Proof.
+  induction a as [|x a IH]; cbn [has app until_squote]; intros H.
+  - reflexivity.
+  - apply orb_false_iff in H. destruct H as [H1 H2]. rewrite H1, (IH H2). reflexivity.
+Qed.
+
+Lemma no_squote s : attr_safe s = true -> has (fun c => c =? 39) s = false.
+Proof.
+  unfold attr_safe. rewrite negb_true_iff. induction s as [|c r IH]; cbn [has]; auto.
+  intros H. apply orb_false_iff in H. destruct H as [H1 H2]. rewrite (IH H2).
+  unfold markup_byte in H1. rewrite !orb_false_iff in H1. destruct H1 as [_ A]. rewrite A. reflexivity.
+Qed.
+
+Theorem hand_attr_quoted_inert s rest :
+  attr_read (hand_attr QDouble s ++ rest) = html_escape s /\
+  attr_read (hand_attr QSingle s ++ rest) = html_escape s.
+Proof.
+  split; unfold hand_attr, attr_read; cbn [app]; rewrite <- app_assoc; cbn [app N.eqb].
+  - apply until_quote_app. apply no_quote. apply escape_safe.
+  - apply until_squote_app. apply no_squote. apply escape_safe.
+Qed.
+
+Lemma esc_no_unq_end c : unq_end c = false -> has unq_end (esc c) = false.
+Proof.
+  intros H. unfold esc.
+  destruct (c =? 0) eqn:E0; [reflexivity|].
+  destruct (c =? 34) eqn:E1; [reflexivity|].
+  destruct (c =? 39) eqn:E2; [reflexivity|].
+  destruct (c =? 38) eqn:E3; [reflexivity|].
+  destruct (c =? 60) eqn:E4; [reflexivity|].
+  destruct (c =? 62) eqn:E5; [reflexivity|].
+  cbn [has]. rewrite H. reflexivity.
+Qed.
+
+Lemma escape_no_unq_end s : has unq_end s = false -> has unq_end (html_escape s) = false.
+Proof.
+  unfold html_escape. induction s as [|c r IH]; cbn [has flat_map]; intros H; [reflexivity|].
+  apply orb_false_iff in H. destruct H as [H1 H2].
+  rewrite has_app, (esc_no_unq_end c H1), (IH H2). reflexivity.
+Qed.
+
+Lemma until_unq_end_app' a c b : has unq_end a = false -> unq_end c = true ->
+  until_unq_end (a ++ c :: b) = a.
+Proof.
+  intros Ha Hc. induction a as [|x a IH]; cbn [app until_unq_end].
+  - rewrite Hc. reflexivity.
+  - cbn [has] in Ha. apply orb_false_iff in Ha. destruct Ha as [H1 H2].
+    rewrite H1, (IH H2). reflexivity.
+Qed.
+
+Lemma attr_read_unquoted t : match t with [] => True | c :: _ => (c =? 34) = false /\ (c =? 39) = false end ->
+  attr_read t = until_unq_end t.
+Proof.
+  destruct t as [|c r]; [reflexivity|]. intros [A B]. unfold attr_read. rewrite A, B. reflexivity.
+Qed.
+
+Lemma unq_end_not_quote c : unq_end c = true -> (c =? 34) = false /\ (c =? 39) = false.
+Proof.
+  unfold unq_end. intros H. split; apply N.eqb_neq; intros ->; cbn in H; discriminate.
+Qed.
+
+Lemma safe_head_not_quote s t : attr_safe s = true ->
+  match t with [] => True | c :: _ => (c =? 34) = false /\ (c =? 39) = false end ->
+  match s ++ t with [] => True | c :: _ => (c =? 34) = false /\ (c =? 39) = false end.
+Proof.
+  destruct s as [|c r]; [intros _ H; exact H|]. intros H _. cbn [app].
+  unfold attr_safe in H. apply negb_true_iff in H. cbn [has] in H. apply orb_false_iff in H.
+  destruct H as [H _]. unfold markup_byte in H. rewrite !orb_false_iff in H.
+  destruct H as [[[A _] _] B]. split; assumption.
+Qed.
+
+(* an unquoted hand-built attribute is read whole exactly when the text has no blank and no '>' ... *)
+Theorem hand_attr_unquoted_blankfree s c rest : has unq_end s = false -> unq_end c = true ->
+  attr_read (hand_attr QUnquoted s ++ c :: rest) = html_escape s.
+Proof.
+  intros Hs Hc. unfold hand_attr. rewrite attr_read_unquoted.
+  - apply until_unq_end_app'; [apply escape_no_unq_end; exact Hs|exact Hc].
+  - apply safe_head_not_quote; [apply escape_safe|]. apply unq_end_not_quote. exact Hc.
+Qed.
+
+(* ... and not otherwise: HTMLEscapeString leaves blanks alone, a blank ends the value, the rest of the
+   request text is read as further attributes of the element *)
+Theorem hand_attr_unquoted_refuted : exists s,
+  attr_read (hand_attr QUnquoted s ++ [62]) <> html_escape s /\
+  unq_safe (html_escape s) = false /\
+  attr_read (hand_attr QDouble s ++ [62]) = html_escape s.
+Proof. exists x_onx. split; [vm_compute; discriminate|]. split; reflexivity. Qed.
